@@ -101,6 +101,8 @@ reg("C16", "./cmd/mcrew", "^TestC16", overlay=OV_MCREW, shards=(4, 16), level="f
 
 reg("C19", "./checks/tools", "^TestC19", shards=(16, 16), assumptions=["only soundness is judged: a spurious failure of the tool under load is not an alarm", "the emitted stream is produced by `cat` echoing each step's inputs; patterns yield at most one set of bindings"])
 
+reg("C20", "./checks/tools", "^TestC20", assumptions=["syntactic validity of the DOT/Mermaid text for exotic names is not judged (no Graphviz here); node names contain no line breaks, ' -> ' or ' ['", "the analysis is compared as sets and counts; 'default' stands for 'no interpreter named'"])
+
 
 def log(*a):
     print(*a, flush=True)
